@@ -29,7 +29,7 @@ Lemma point_spec s :
   exists r s', point um s = (r, s') /\ tabs_eq s s' /\ stk s s' /\ ctl (sp_point um (fault s)) r s'.
 Proof.
   unfold point, sp_point. destruct (fault s) as [[|k]|] eqn:Ef; eexists; eexists; (split; [reflexivity|]);
-    (split; [constructor; reflexivity|]); (split; [split; reflexivity|]); cbn [ctl fault set_fault]; eauto.
+    (split; [constructor; reflexivity|]); (split; [repeat split; reflexivity|]); cbn [ctl fault set_fault]; eauto.
 Qed.
 
 Lemma points_spec n : forall s,
@@ -56,19 +56,30 @@ Lemma with_meta_run {A} id (m : M A) s r s1 :
   m (up_meta (cons id) s) = (r, s1) -> stk (up_meta (cons id) s) s1 ->
   with_meta C id m s = (r, up_meta (rem1 id) s1) /\ stk s (up_meta (rem1 id) s1).
 Proof.
-  intros Hm [K1 K2]. unfold with_meta. cbn [meta_finally C]. unfold bind, modify, try_finally.
+  intros Hm [K1 [K2 K3]]. unfold with_meta. cbn [meta_finally C]. unfold bind, modify, try_finally.
   rewrite Hm. split.
   - destruct r; reflexivity.
-  - split; sst; [| exact K2]. rewrite K1. sst. apply rem1_cons.
+  - split; [| split]; sst; [| exact K2 | exact K3]. rewrite K1. sst. apply rem1_cons.
 Qed.
 Lemma with_rc_run {A} o tok (m : M A) s r s1 :
   m (up_rctx (cons (o, tok)) s) = (r, s1) -> stk (up_rctx (cons (o, tok)) s) s1 ->
   with_rc C o tok m s = (r, up_rctx (rem1_tok tok) s1) /\ stk s (up_rctx (rem1_tok tok) s1).
 Proof.
-  intros Hm [K1 K2]. unfold with_rc. cbn [rc_finally C]. unfold bind, modify, try_finally.
+  intros Hm [K1 [K2 K3]]. unfold with_rc. cbn [rc_finally C]. unfold bind, modify, try_finally.
   rewrite Hm. split.
   - destruct r; reflexivity.
-  - split; sst; [exact K1|]. rewrite K2. sst. apply rem1_tok_cons.
+  - split; [| split]; sst; [exact K1 | | exact K3]. rewrite K2. sst. apply rem1_tok_cons.
+Qed.
+Lemma tabs_eq_up_cdicts f s : tabs_eq s (up_cdicts f s).
+Proof. constructor; reflexivity. Qed.
+Lemma with_cd_run {A} o (m : M A) s r s1 :
+  m (up_cdicts (cons (o, next s)) s) = (r, s1) -> stk (up_cdicts (cons (o, next s)) s) s1 ->
+  with_cd o m s = (r, up_cdicts (rem1_tok (next s)) s1) /\ stk s (up_cdicts (rem1_tok (next s)) s1).
+Proof.
+  intros Hm [K1 [K2 K3]]. unfold with_cd. unfold bind, modify, try_finally.
+  rewrite Hm. split.
+  - destruct r; reflexivity.
+  - split; [| split]; sst; [exact K1 | exact K2 |]. rewrite K3. sst. apply rem1_tok_cons.
 Qed.
 
 (* ---------- _render_impl up to the registration of the callback ---------- *)
@@ -123,12 +134,12 @@ Proof.
     destruct (sp_points um np (fault s)) as [k|e]; cbn [ctl] in Cp.
     - destruct Cp as [[[] Hr] Hfs]. subst rp. eexists. eexists. split; [reflexivity|].
       split; [| split; [| split; [reflexivity | exact Hfs]]].
-      + eapply stk_trans; [| exact Kwm]. split; reflexivity.
+      + eapply stk_trans; [| exact Kwm]. repeat split; reflexivity.
       + eapply tabs_eq_trans; [| eapply tabs_eq_trans; [exact Ep | apply tabs_eq_up_meta]].
         constructor; reflexivity.
     - destruct Cp as [Hr Hfs]. subst rp. eexists. eexists. split; [reflexivity|].
       split; [| split; [| split; [reflexivity | exact Hfs]]].
-      + eapply stk_trans; [| exact Kwm]. split; reflexivity.
+      + eapply stk_trans; [| exact Kwm]. repeat split; reflexivity.
       + eapply tabs_eq_trans; [| eapply tabs_eq_trans; [exact Ep | apply tabs_eq_up_meta]].
         constructor; reflexivity. }
   destruct Hinner as [r1 [s1 [Hin [Kin [Ein Cin]]]]].
@@ -146,7 +157,7 @@ Proof.
     { intros P HP. rewrite (te_prefs _ _ E2). sst. auto. }
     unfold bind at 1. unfold bind at 1. rewrite Hreg. unfold modify, ret.
     eexists. eexists. split; [reflexivity|]. split.
-    { destruct Krc as [K1 K2]. split; sst; [rewrite (sr_meta _ _ R3) | rewrite (sr_rctx _ _ R3)]; assumption. }
+    { eapply stk_trans; [exact Krc|]. eapply stk_trans; [apply (stk_same_rest _ _ R3)|]. repeat split; reflexivity. }
     split; [reflexivity|]. split; [sst; rewrite (sr_fault _ _ R3); exact Hfs|].
     split; [sst; rewrite (sr_next _ _ R3), (te_next _ _ E2); reflexivity|].
     split; [destruct P3; constructor; assumption|].
@@ -267,7 +278,7 @@ Proof.
         apply orb_true_iff in Hm. destruct Hm as [Hm|Hm].
         -- right. apply N.eqb_eq in Hm. subst x. apply N.le_refl.
         -- left. exact Hm.
-    + destruct K1 as [Ka Kb]. split; sst; assumption.
+    + eapply stk_trans; [exact K1|]. repeat split; reflexivity.
     + split; [eauto | sst; exact Hf].
     + intros infos Hi. inversion Hi; subst infos. eexists. split; [reflexivity|]. split; [reflexivity|].
       constructor; cbn [i_id i_vis].
@@ -362,7 +373,7 @@ Proof.
   { intros r Hr. rewrite Hero in Hr. specialize (Hroot r Hr). rewrite Hn1. fold pid in Hroot. lia. }
   rewrite Hero in A. rewrite Hist in Cc.
   assert (Hf1 : fault s1 = fault s) by reflexivity. rewrite Hf1 in Cc.
-  assert (K1 : stk s s1) by (split; reflexivity).
+  assert (K1 : stk s s1) by (repeat split; reflexivity).
   unfold provide. fold pid. fold s1. unfold e1 in Hrun. rewrite Hrun.
   (* what happens after the body: only removals *)
   assert (Hafter : exists s3, (match res with
@@ -438,7 +449,7 @@ Proof.
       + left. rewrite Hc1 in H. exact H.
       + right. rewrite Hn1 in H. fold pid. lia. }
   split.
-  { eapply stk_trans; [exact K1|]. eapply stk_trans; [exact K|]. split; [apply R3 | apply R3]. }
+  { eapply stk_trans; [exact K1|]. eapply stk_trans; [exact K|]. apply stk_same_rest. exact R3. }
   split.
   { destruct (sp (istop e) (fault s)) as [k|ex]; cbn [ctl] in *.
     - destruct Cc as [Ha Hf]. split; [exact Ha|]. rewrite (sr_fault _ _ R3). exact Hf.
@@ -483,7 +494,7 @@ Proof.
     - intros t x Ht. rewrite BB in Ht. apply andb_true_iff in Ht. tauto.
     - intros x Hx t. rewrite BB. apply N.eqb_neq in Hx. rewrite Hx. apply andb_true_r. }
   assert (HBB : below sB) by apply SB.
-  assert (KB : stk s sB) by (split; reflexivity).
+  assert (KB : stk s sB) by (repeat split; reflexivity).
   (* on_render_before *)
   set (sM := up_meta (cons id) sB).
   destruct (point_spec sM) as [r0 [s0 [Hpt [E0 [K0 C0]]]]].
@@ -589,7 +600,7 @@ Proof.
   { eapply step_strengthen; [eapply step_trans; [exact SC | exact A2]|].
     intros x Hx [H|H]; [exact H|]. apply Hids_new in H. lia. }
   assert (KC : stk s sC).
-  { eapply stk_trans; [exact KB|]. eapply stk_trans; [exact Kwm|]. split; reflexivity. }
+  { eapply stk_trans; [exact KB|]. eapply stk_trans; [exact Kwm|]. repeat split; reflexivity. }
   destruct (spd full k1) as [k2|ex2] eqn:Esp2; cbn [ctl] in C2.
   2: { (* a child fails *)
     destruct C2 as [Hr2 Hf]. subst r2.
@@ -645,7 +656,7 @@ Proof.
       * intros x Hx t. rewrite B4. apply N.eqb_neq in Hx. rewrite Hx. sst. rewrite andb_true_r.
         destruct t; unfold sD; cbn [bit]; sst; try reflexivity. rewrite mem_srem, Hx. reflexivity.
     + intros x _ [H|H]; exact H.
-  - eapply stk_trans; [exact K23|]. split; [rewrite (sr_meta _ _ R4) | rewrite (sr_rctx _ _ R4)]; reflexivity.
+  - eapply stk_trans; [exact K23|]. eapply stk_trans; [| apply (stk_same_rest _ _ R4)]. repeat split; reflexivity.
   - cbn [sp_bind sp_map]. rewrite Esp1. cbn [sp_bind sp_map]. rewrite Esp2. cbn [sp_bind]. rewrite Esp3. cbn [ctl].
     split; [eauto|].
     rewrite (sr_fault _ _ R4). unfold sD. sst. exact Hf3'.
@@ -798,8 +809,8 @@ Proof.
     + intros k' _. apply Hc4.
     + intros r x _ Hm. unfold aget in *. rewrite Hc4. exact Hm.
     + intros r x _ Hm. left. unfold aget in *. rewrite Hc4 in Hm. exact Hm.
-  - eapply stk_trans; [exact K1|]. eapply stk_trans; [split; reflexivity|]. eapply stk_trans; [exact K2|].
-    split; [rewrite <- (sr_meta _ _ R3) | rewrite <- (sr_rctx _ _ R3)]; reflexivity.
+  - eapply stk_trans; [exact K1|]. eapply stk_trans; [repeat split; reflexivity|]. eapply stk_trans; [exact K2|].
+    eapply stk_trans; [apply (stk_same_rest _ _ R3)|]. repeat split; reflexivity.
   - assert (Hf4 : fault s4 = fault s2) by (unfold s4; sst; apply R3).
     destruct (sp_deferred um [] name (spp false) spd k) as [k'|ex']; cbn [ctl sp_map] in *.
     + destruct C2 as [[a Ha] Hf2]. subst r2. split; [eauto | rewrite Hf4; exact Hf2].
